@@ -878,4 +878,268 @@ theorem sepLoop_tp (kwargs : List (Nat × Nat)) (fill : Bool)
               · exact ih _ _ _ _ _ hinv.snoc_none h
               · exact ih _ _ _ _ _ hinv h
 
+/-! ### converter default opset / exported imports -/
+
+theorem findTok_append_keep {d x : Nat} {l m : List (Nat × Nat)} (h : findTok d l = some x) :
+    findTok d (l ++ m) = some x := by
+  induction l with
+  | nil => simp [findTok] at h
+  | cons q qs ih =>
+    simp only [List.cons_append, findTok] at h ⊢
+    split
+    next hq => simp only [hq, if_true] at h; exact h
+    next hq => simp only [hq] at h; exact ih h
+
+theorem findTok_append_none {d : Nat} {l m : List (Nat × Nat)} (h : findTok d l = none) :
+    findTok d (l ++ m) = findTok d m := by
+  induction l with
+  | nil => rfl
+  | cons q qs ih =>
+    simp only [List.cons_append, findTok] at h ⊢
+    split
+    next hq => simp only [hq, if_true] at h; cases h
+    next hq => simp only [hq] at h; exact ih h
+
+theorem findTok_mem' {k v : Nat} {l : List (Nat × Nat)} (hk : findTok k l = some v) : (k, v) ∈ l :=
+  findTok_mem hk
+
+theorem appendNode_dflt (st : ConvState) (d v : Nat) : (appendNode st d v).dflt = st.dflt := by
+  unfold appendNode; split
+  · rfl
+  · split <;> rfl
+
+theorem appendNode_keep (st : ConvState) (d v k x : Nat) (h : findTok k st.imports = some x) :
+    findTok k (appendNode st d v).imports = some x := by
+  unfold appendNode; split
+  · exact findTok_append_keep h
+  · split <;> exact h
+
+/-- after a node of (d, v) the domain is imported: at `v` if it was new, else at the version it already had -/
+theorem appendNode_self (st : ConvState) (d v : Nat) :
+    findTok d (appendNode st d v).imports =
+      some (match findTok d st.imports with | some v0 => v0 | none => v) := by
+  unfold appendNode
+  cases h : findTok d st.imports with
+  | none => simp only; rw [findTok_append_none h]; simp [findTok]
+  | some v0 => simp only; split <;> exact h
+
+theorem appendNode_mem (st : ConvState) (d v : Nat) (p : Nat × Nat)
+    (h : p ∈ (appendNode st d v).imports) : p ∈ st.imports ∨ p = (d, v) := by
+  unfold appendNode at h; split at h
+  · simp only [List.mem_append, List.mem_singleton] at h; exact h
+  · split at h <;> exact Or.inl h
+
+/-- a `''` import, once there, is the converter's default opset -/
+def ConvInv (st : ConvState) : Prop := ∀ v0, findTok 1 st.imports = some v0 → st.dflt = some (1, v0)
+
+theorem setDefault_ok {st st' : ConvState} {d v : Nat} (h : setDefault st d v = .ok st') :
+    st'.imports = st.imports ∧ st'.conflicts = st.conflicts ∧
+      (∀ x, st.dflt = some x → st'.dflt = some x) ∧ (d = 1 → st'.dflt = some (1, v)) ∧
+      (d ≠ 1 → st'.dflt = st.dflt) := by
+  unfold setDefault at h
+  split at h
+  next hd =>
+    simp only [bne_iff_ne, ne_eq] at hd
+    cases h
+    exact ⟨rfl, rfl, fun _ hx => hx, fun h1 => absurd h1 hd, fun _ => rfl⟩
+  next hd =>
+    have hd1 : d = 1 := by simpa using hd
+    cases hdf : st.dflt with
+    | none =>
+      rw [hdf] at h; simp only [Except.ok.injEq] at h; subst h
+      refine ⟨rfl, rfl, ?_, fun _ => by rw [hd1], fun h1 => absurd hd1 h1⟩
+      intro x hx; cases hx
+    | some dv =>
+      rcases dv with ⟨d0, v0⟩
+      rw [hdf] at h; simp only at h
+      split at h
+      · cases h
+      · next hne =>
+        simp only [Bool.or_eq_true, bne_iff_ne, ne_eq, not_or, Decidable.not_not] at hne
+        cases h
+        refine ⟨rfl, rfl, fun _ hx => hdf ▸ hx, ?_, fun h1 => absurd hd1 h1⟩
+        intro _; rw [hdf, ← hne.1, ← hne.2, hd1]
+
+theorem convStep_props {st st' : ConvState} {e : Ev} (hinv : ConvInv st) (h : convStep st e = .ok st') :
+    ConvInv st' ∧ (∀ x, st.dflt = some x → st'.dflt = some x) ∧
+      (∀ k x, findTok k st.imports = some x → findTok k st'.imports = some x) ∧
+      (∀ v, e = .call 1 v → findTok 1 st'.imports = some v) ∧
+      (∀ p ∈ st'.imports, p ∈ st.imports ∨ e = .call p.1 p.2 ∨ e = .implicit) := by
+  cases e with
+  | call d v =>
+    simp only [convStep] at h
+    cases hs : setDefault st d v with
+    | error err => rw [hs] at h; cases h
+    | ok s1 =>
+      rw [hs] at h; simp only [Except.ok.injEq] at h; subst h
+      rcases setDefault_ok hs with ⟨himp, _, hkeep, hone, hother⟩
+      have hinv1 : ConvInv s1 := by
+        intro v0 hv0; rw [himp] at hv0; exact hkeep _ (hinv v0 hv0)
+      refine ⟨?_, ?_, ?_, ?_, ?_⟩
+      · intro v0 hv0
+        rw [appendNode_dflt]
+        by_cases hd : d = 1
+        · subst hd
+          rw [appendNode_self] at hv0
+          cases hf : findTok 1 s1.imports with
+          | none => rw [hf] at hv0; simp only [Option.some.injEq] at hv0; subst hv0; exact hone rfl
+          | some w => rw [hf] at hv0; simp only [Option.some.injEq] at hv0; subst hv0; exact hinv1 _ hf
+        · -- the appended entry is of another domain
+          have : findTok 1 s1.imports = some v0 := by
+            unfold appendNode at hv0
+            split at hv0
+            · next hnone =>
+              cases hf : findTok 1 s1.imports with
+              | some w => rw [findTok_append_keep hf] at hv0; exact hv0
+              | none =>
+                rw [findTok_append_none hf] at hv0
+                simp only [findTok] at hv0
+                split at hv0
+                next hq => simp only [beq_iff_eq] at hq; exact absurd hq hd
+                next => cases hv0
+            · split at hv0 <;> exact hv0
+          exact hinv1 _ this
+      · intro x hx; rw [appendNode_dflt]; exact hkeep x hx
+      · intro k x hk; apply appendNode_keep; rw [himp]; exact hk
+      · intro v' he
+        simp only [Ev.call.injEq] at he
+        rcases he with ⟨rfl, rfl⟩
+        rw [appendNode_self]
+        cases hf : findTok 1 s1.imports with
+        | none => rfl
+        | some w =>
+          have h1 := hinv1 _ hf
+          have h2 := hone rfl
+          rw [h1] at h2
+          simp only [Option.some.injEq, Prod.mk.injEq, true_and] at h2
+          simp [h2]
+      · intro p hp
+        rcases appendNode_mem _ _ _ _ hp with h1 | h1
+        · rw [himp] at h1; exact Or.inl h1
+        · subst h1; exact Or.inr (Or.inl rfl)
+  | implicit =>
+    simp only [convStep] at h
+    cases hdf : st.dflt with
+    | none => rw [hdf] at h; cases h
+    | some dv =>
+      rcases dv with ⟨d0, v0⟩
+      rw [hdf] at h; simp only [Except.ok.injEq] at h; subst h
+      refine ⟨?_, ?_, ?_, ?_, ?_⟩
+      · intro w hw
+        rw [appendNode_dflt]
+        by_cases hd : d0 = 1
+        · subst hd
+          rw [appendNode_self] at hw
+          cases hf : findTok 1 st.imports with
+          | none => rw [hf] at hw; simp only [Option.some.injEq] at hw; subst hw; exact hdf
+          | some u => rw [hf] at hw; simp only [Option.some.injEq] at hw; subst hw; exact hinv _ hf
+        · have : findTok 1 st.imports = some w := by
+            unfold appendNode at hw
+            split at hw
+            · cases hf : findTok 1 st.imports with
+              | some u => rw [findTok_append_keep hf] at hw; exact hw
+              | none =>
+                rw [findTok_append_none hf] at hw
+                simp only [findTok] at hw
+                split at hw
+                next hq => simp only [beq_iff_eq] at hq; exact absurd hq hd
+                next => cases hw
+            · split at hw <;> exact hw
+          exact hinv _ this
+      · intro x hx; rw [appendNode_dflt]; exact hdf ▸ hx
+      · intro k x hk; exact appendNode_keep _ _ _ _ _ hk
+      · intro v he; cases he
+      · intro p hp
+        rcases appendNode_mem _ _ _ _ hp with h1 | h1
+        · exact Or.inl h1
+        · exact Or.inr (Or.inr rfl)
+
+theorem convRun_props {st st' : ConvState} {evs : List Ev} (hinv : ConvInv st) (h : convRun st evs = .ok st') :
+    (∀ x, st.dflt = some x → st'.dflt = some x) ∧
+      (∀ k x, findTok k st.imports = some x → findTok k st'.imports = some x) ∧
+      (∀ v, Ev.call 1 v ∈ evs → findTok 1 st'.imports = some v) ∧
+      (∀ p ∈ st'.imports, p ∈ st.imports ∨ Ev.call p.1 p.2 ∈ evs ∨ Ev.implicit ∈ evs) := by
+  induction evs generalizing st with
+  | nil =>
+    simp only [convRun, Except.ok.injEq] at h; subst h
+    exact ⟨fun _ hx => hx, fun _ _ hk => hk, fun v hv => (by cases hv), fun p hp => Or.inl hp⟩
+  | cons e es ih =>
+    simp only [convRun] at h
+    cases hs : convStep st e with
+    | error err => rw [hs] at h; cases h
+    | ok s1 =>
+      rw [hs] at h; simp only at h
+      rcases convStep_props hinv hs with ⟨hinv1, hk1, hi1, hc1, hm1⟩
+      rcases ih hinv1 h with ⟨hk2, hi2, hc2, hm2⟩
+      refine ⟨fun x hx => hk2 x (hk1 x hx), fun k x hk => hi2 k x (hi1 k x hk), ?_, ?_⟩
+      · intro v hv
+        rcases List.mem_cons.mp hv with rfl | hv'
+        · exact hi2 1 v (hc1 v rfl)
+        · exact hc2 v hv'
+      · intro p hp
+        rcases hm2 p hp with h1 | h1 | h1
+        · rcases hm1 p h1 with h2 | h2 | h2
+          · exact Or.inl h2
+          · exact Or.inr (Or.inl (h2 ▸ List.mem_cons_self))
+          · exact Or.inr (Or.inr (h2 ▸ List.mem_cons_self))
+        · exact Or.inr (Or.inl (List.mem_cons_of_mem _ h1))
+        · exact Or.inr (Or.inr (List.mem_cons_of_mem _ h1))
+
+/-- with a default opset in place, the only way translation stops is "Two distincts opset were used" -/
+theorem convRun_error {st : ConvState} {evs : List Ev} {err : ConvErr} (hinv : ConvInv st)
+    (hd : st.dflt.isSome = true) (h : convRun st evs = .error err) : err = .twoOpsets := by
+  induction evs generalizing st with
+  | nil => simp [convRun] at h
+  | cons e es ih =>
+    simp only [convRun] at h
+    cases hs : convStep st e with
+    | ok s1 =>
+      rw [hs] at h; simp only at h
+      rcases convStep_props hinv hs with ⟨hinv1, hk1, _, _, _⟩
+      refine ih hinv1 ?_ h
+      rcases Option.isSome_iff_exists.mp hd with ⟨x, hx⟩
+      rw [hk1 x hx]; rfl
+    | error e2 =>
+      rw [hs] at h; simp only [Except.error.injEq] at h; subst h
+      cases e with
+      | call d v =>
+        simp only [convStep] at hs
+        cases hsd : setDefault st d v with
+        | ok s1 => rw [hsd] at hs; cases hs
+        | error e3 =>
+          rw [hsd] at hs; simp only [Except.error.injEq] at hs; subst hs
+          unfold setDefault at hsd
+          split at hsd
+          · cases hsd
+          · split at hsd
+            · split at hsd
+              · simp only [Except.error.injEq] at hsd; exact hsd.symm
+              · cases hsd
+            · cases hsd
+      | implicit =>
+        simp only [convStep] at hs
+        rcases Option.isSome_iff_exists.mp hd with ⟨x, hx⟩
+        rw [hx] at hs
+        cases hs
+
+theorem findOnnxOpset_some {evs : List Ev} {v : Nat} (h : Ev.call 1 v ∈ evs) :
+    (findOnnxOpset evs).isSome = true := by
+  induction evs with
+  | nil => cases h
+  | cons e es ih =>
+    cases e with
+    | call d w =>
+      simp only [findOnnxOpset]
+      split
+      · rfl
+      · next hd =>
+        rcases List.mem_cons.mp h with h1 | h1
+        · simp only [Ev.call.injEq] at h1; simp [h1.1] at hd
+        · exact ih h1
+    | implicit =>
+      simp only [findOnnxOpset]
+      rcases List.mem_cons.mp h with h1 | h1
+      · cases h1
+      · exact ih h1
+
 end OV.C17
